@@ -370,3 +370,16 @@ func (k *Kernel) InterfaceByIndex(idx int) (Iface, bool) {
 	}
 	return Iface{}, false
 }
+
+// PokeAllEpolls makes every eventfd registered in an epoll instance look
+// freshly written without changing its counter semantics beyond +1 (a busy
+// neighbour waking the loop).
+func (k *Kernel) PokeAllEpolls() {
+	for _, e := range k.fds {
+		if e.file.kind == kEventfd && len(e.file.watch) > 0 && e.file.efd.counter < efdMax-1 {
+			e.file.efd.counter++
+			e.file.wake()
+			return
+		}
+	}
+}
